@@ -96,4 +96,32 @@ CHECKS["C19"] = {
             "outside the property.",
     "technique": "Coq evaluation of source-regenerated dominance conditions + fault-injection scenario",
 }
+CHECKS["C02"] = {
+    "text": "Theorems (Coq) over MuModel: trylock/rtrylock never block from ANY world (each own step is never a semaphore wait, a rank 3->0 "
+            "decreases, other threads cannot change the caller's pc) and report truthfully; in every reachable world (any threads, programs, "
+            "schedules) the queue holds distinct sleeping lockers and MU_WAITING is set whenever it is non-empty.  Global progress (no run "
+            "ends with every thread asleep or spinning) is decided by the runtime's stuck detector over thousands of schedules; the model is "
+            "replayed in lock-step against the real mu.c.",
+    "design_ref": "DESIGN.md section 4, C02",
+    "note": "The full no-stuck-world theorem is not stated (coverage.partial); abstract counting semaphore in the model.",
+    "technique": "Coq invariants over source-regenerated transition system + lock-step tie + stuck-state detection on schedules",
+}
+CHECKS["C13"] = {
+    "text": "Theorems (Coq) over MuModel: after a release's last successful word CAS only waiter records are touched (C13_last_cas), "
+            "uncontended releases end in that very step, and between an early release and that last CAS the mutex is pinned by a non-empty "
+            "queue/wake list whose members are still inside nsync_mu_lock (C13_pinned), for any threads/programs/schedules.  The refcount "
+            "pattern and the waker-vs-wait_n half are run against an arena that unmaps freed blocks and a dead-stack-frame check.",
+    "design_ref": "DESIGN.md section 4, C13",
+    "note": "Refcount theorem with an explicit free and the waker half are oracle-decided (coverage.partial).",
+    "technique": "Coq invariants over source-regenerated transition system + arena/dead-stack oracles on schedules",
+}
+CHECKS["C14"] = {
+    "text": "Theorems (Coq) over MuModel: while MU_LONG_WAIT is set no thread that has not slept in its current call can acquire (all fast "
+            "paths, try-locks, lock_slow before the first sleep; any number of such threads), the LONG_WAIT_THRESHOLD-th fruitless wake-up "
+            "makes the waiter set the bit in every enqueue CAS, it re-queues at the front, and once woken it ignores the barrier.  The bound "
+            "on the victim's sleeps is asserted under a scenario-directed adversarial scheduler and random schedules.",
+    "design_ref": "DESIGN.md section 4, C14",
+    "note": "The numeric bound itself is not a theorem (coverage.partial).",
+    "technique": "Coq lemmas over source-regenerated expressions and model + adversarial-schedule oracle",
+}
 NOT_APPLICABLE = {}
